@@ -870,6 +870,63 @@ def _class_of_call(repo: Repo, view: FuncInfo, call: ast.Call):
     return ci
 
 
+def _desugared_generator(f: FuncInfo) -> FuncInfo:
+    """The generator with every `yield from X` statement written as the loop it stands for: `for v in XS: if c: yield e` for a
+    generator expression / comprehension X, `for t in X: yield t` otherwise (X may be another generator helper, substituted in turn)."""
+    if isinstance(f.node, ast.Lambda) or not any(isinstance(n, ast.YieldFrom) for n in own_nodes(f.node)):
+        return f
+    cached = f.__dict__.get("_desugared")
+    if cached is not None:
+        return cached
+    node = _clone_src(f.node, f)
+    taken = {n.id for n in ast.walk(node) if isinstance(n, ast.Name)}
+
+    def block(stmts: list[ast.stmt]) -> list[ast.stmt]:
+        out: list[ast.stmt] = []
+        for st in stmts:
+            if isinstance(st, (ast.FunctionDef, ast.AsyncFunctionDef, ast.ClassDef)):
+                out.append(st)
+                continue
+            for fld in ("body", "orelse", "finalbody"):
+                blk = getattr(st, fld, None)
+                if isinstance(blk, list) and blk and isinstance(blk[0], ast.stmt):
+                    setattr(st, fld, block(blk))
+            if isinstance(st, ast.Expr) and isinstance(st.value, ast.YieldFrom):
+                x = st.value.value
+                src = x.args[0] if isinstance(x, ast.Call) and isinstance(x.func, ast.Name) and x.func.id in ("iter", "list", "tuple") and len(x.args) == 1 else x
+                if isinstance(src, (ast.GeneratorExp, ast.ListComp, ast.SetComp)) and not any(g.is_async for g in src.generators):
+                    body: list[ast.stmt] = [ast.copy_location(ast.Expr(value=ast.copy_location(ast.Yield(value=src.elt), st)), st)]
+                    for g in reversed(src.generators):
+                        for c in reversed(g.ifs):
+                            body = [ast.copy_location(ast.If(test=c, body=body, orelse=[]), st)]
+                        tgt = g.target
+                        for n in ast.walk(tgt):
+                            if isinstance(n, (ast.Name, ast.Tuple, ast.List)):
+                                n.ctx = ast.Store()
+                        body = [ast.copy_location(ast.For(target=tgt, iter=g.iter, body=body, orelse=[]), st)]
+                    out += body
+                else:
+                    tmp = "yielded"
+                    while tmp in taken:
+                        tmp += "_"
+                    taken.add(tmp)
+                    loop = ast.For(target=ast.Name(id=tmp, ctx=ast.Store()), iter=x, body=[ast.copy_location(ast.Expr(value=ast.copy_location(ast.Yield(value=ast.Name(id=tmp, ctx=ast.Load())), st)), st)], orelse=[])
+                    out.append(ast.copy_location(loop, st))
+                continue
+            out.append(st)
+        return out
+
+    node.body = block(node.body)
+    if any(isinstance(n, ast.YieldFrom) for n in own_nodes(node)):
+        f.__dict__["_desugared"] = f  # `x = yield from ..`: the value is used; left as it is
+        return f
+    ast.fix_missing_locations(node)
+    set_parents(node)
+    g = FuncInfo(name=f.name, qualname=f.qualname, node=node, module=f.module, cls=f.cls, decorators=list(f.decorators), outer=f.outer)
+    f.__dict__["_desugared"] = g
+    return g
+
+
 def _next_as_generator(ci) -> FuncInfo | None:
     """The iterator protocol written by hand - `__iter__` returns self, `__next__` is `while <state>: .. return e` followed by
     `raise StopIteration` - as the generator it is equivalent to when `__next__` keeps no local state between calls: every
@@ -951,18 +1008,18 @@ def _generator_target(repo: Repo, view: FuncInfo, it: ast.AST, objects: dict):
         if f is not None and not _is_generator(f):
             f = _next_as_generator(objects[it.id])
         if f is not None and _is_generator(f) and not (f.node.args.vararg or f.node.args.kwarg):
-            return f, ast.copy_location(ast.Call(func=ast.Attribute(value=it, attr="__iter__", ctx=ast.Load()), args=[ast.copy_location(ast.Name(id=it.id, ctx=ast.Load()), it)], keywords=[]), it)
+            return _desugared_generator(f), ast.copy_location(ast.Call(func=ast.Attribute(value=it, attr="__iter__", ctx=ast.Load()), args=[ast.copy_location(ast.Name(id=it.id, ctx=ast.Load()), it)], keywords=[]), it)
         return None
     if isinstance(it, ast.Call) and isinstance(it.func, ast.Attribute) and isinstance(it.func.value, ast.Name) and it.func.value.id in objects:
         f = _method_of(repo, objects[it.func.value.id], it.func.attr)
         if f is not None and _is_generator(f) and not f.is_staticmethod and not f.is_classmethod and not (f.node.args.vararg or f.node.args.kwarg):
             recv = ast.copy_location(ast.Name(id=it.func.value.id, ctx=ast.Load()), it)
-            return f, ast.copy_location(ast.Call(func=it.func, args=[recv, *it.args], keywords=list(it.keywords)), it)
+            return _desugared_generator(f), ast.copy_location(ast.Call(func=it.func, args=[recv, *it.args], keywords=list(it.keywords)), it)
         return None
     if isinstance(it, ast.Call):
         f = _helper_of(repo, view, it)
         if f is not None and _is_generator(f):
-            return f, it
+            return _desugared_generator(f), it
     return None
 
 
@@ -1117,9 +1174,37 @@ def _inline_object_methods(repo: Repo, view: FuncInfo) -> bool:
             out.append(st)
         return out
 
+    class Properties(ast.NodeTransformer):
+        """`x.prop` where prop is a property written as one `return <expr>`: the expression with `self` = x."""
+
+        def visit_Lambda(self, n):  # noqa: N802
+            return n
+
+        def visit_Attribute(self, n: ast.Attribute):  # noqa: N802
+            nonlocal changed
+            self.generic_visit(n)
+            if not (isinstance(n.value, ast.Name) and n.value.id in objects and isinstance(n.ctx, ast.Load)):
+                return n
+            f = _method_of(repo, objects[n.value.id], n.attr)
+            if f is None or not f.is_property or isinstance(f.node, ast.Lambda):
+                return n
+            body = [s_ for s_ in f.node.body if not (isinstance(s_, ast.Expr) and isinstance(s_.value, ast.Constant))]
+            if len(body) != 1 or not isinstance(body[0], ast.Return) or body[0].value is None or len(f.param_names) != 1:
+                return n
+            expr = _clone_src(body[0].value, f)
+            me = f.param_names[0]
+            for m_ in ast.walk(expr):
+                if isinstance(m_, ast.Name) and m_.id == me:
+                    m_.id = n.value.id
+            changed = True
+            view.__dict__.setdefault("gen_inlined", []).append(f.fq)
+            return ast.copy_location(expr, n)
+
     view.node.body = block(view.node.body)
     tr = ExprMethods()
     view.node.body = [tr.visit(s_) for s_ in view.node.body]
+    pr = Properties()
+    view.node.body = [pr.visit(s_) for s_ in view.node.body]
     return changed
 
 
